@@ -182,6 +182,36 @@ fn projects() -> Vec<Project> {
         ],
         dup_ids: vec![],
     });
+    // three projects over the same keys (cross-instance stage): two define x.A / x.B / x.C with
+    // different kinds, one only imports them; names, docs and method names coincide too
+    v.push(Project {
+        name: "overlap-defines-the-keys",
+        files: vec![
+            ("a", "package x; /** doc one */ interface A { void f(); }"),
+            ("b", "package x; parcelable B { int n; }"),
+            ("c", "package x; enum C { P, Q }"),
+            ("use", "package y; import x.A; import x.B; import x.C; interface Use { void f(in A a, in B b, in C c, out B[] d); List<B> g(); }"),
+        ],
+        dup_ids: vec![],
+    });
+    v.push(Project {
+        name: "overlap-defines-the-keys-with-other-kinds",
+        files: vec![
+            ("a", "package x; /** doc two */ enum A { F }"),
+            ("b", "package x; interface B { void n(); }"),
+            ("c", "package x; parcelable C { int p; }"),
+            ("use", "package y; import x.A; import x.B; import x.C; interface Use { void f(in A a, in B b, in C c, out B[] d); List<B> g(); }"),
+        ],
+        dup_ids: vec![],
+    });
+    v.push(Project {
+        name: "overlap-only-imports-the-keys",
+        files: vec![
+            ("use", "package y; import x.A; import x.B; import x.C; interface Use { void f(in A a, in B b, in C c, out B[] d); List<B> g(); }"),
+            ("other", "package y; parcelable Other { A a; x.B b; Use u; }"),
+        ],
+        dup_ids: vec![],
+    });
     v.push(Project {
         name: "forward-declaration-in-another-file",
         files: vec![
@@ -488,6 +518,9 @@ fn first_diff(a: &Output, b: &Output) -> String {
 
 /// replay: run A and run B of the same project must give equal output (and each sorted)
 pub fn check_case(case: &Case) -> CheckResult {
+    if !case.expect["cross"].is_null() {
+        return check_cross(case);
+    }
     let mut r = CheckResult::default();
     let files = &case.files;
     let get = |k: &str| -> (Vec<(String, String)>, u64, usize) {
@@ -540,9 +573,6 @@ fn canonical_json(out: &Output) -> String {
 /// child-process mode: print one digest line per project (insertion order and base key from argv)
 pub fn run_proc(base: u64, reverse: bool) -> i32 {
     for proj in projects() {
-        if !proj.dup_ids.is_empty() {
-            continue;
-        }
         let files: Vec<(String, String)> = proj.files.iter().map(|(a, b)| (a.to_string(), b.to_string())).collect();
         let mut order: Vec<usize> = (0..files.len()).collect();
         if reverse {
@@ -554,6 +584,75 @@ pub fn run_proc(base: u64, reverse: bool) -> i32 {
         }
     }
     0
+}
+
+/// child-process mode of the cross-instance stage: validate the `before` projects (each in its own
+/// Parser, kept alive or dropped), then the target project in a fresh Parser; print its digest
+pub fn run_cross(args: &[String]) -> i32 {
+    let keep = args.first().map(|s| s == "1").unwrap_or(false);
+    let idx: Vec<usize> = args.iter().skip(1).filter_map(|s| s.parse().ok()).collect();
+    let projs = projects();
+    let mut alive = Vec::new();
+    let Some((target, before)) = idx.split_first() else { return 2 };
+    let load = |pi: usize| -> aidl_parser::Parser<String> {
+        let mut p = aidl_parser::Parser::new();
+        for (id, text) in &projs[pi].files {
+            p.add_content(id.to_string(), text);
+        }
+        p
+    };
+    for b in before {
+        let p = load(*b);
+        let _ = p.validate();
+        let _ = p.validate();
+        if keep {
+            alive.push(p);
+        }
+    }
+    let out = guarded(|| {
+        let p = load(*target);
+        let res = p.validate();
+        let (output, unsorted) = canonical(&res);
+        (fnv(&canonical_json(&output)), unsorted)
+    });
+    match out {
+        Ok((d, None)) => println!("{d:016x}"),
+        Ok((d, Some(u))) => println!("{d:016x} UNSORTED {u}"),
+        Err(e) => println!("PANIC {e}"),
+    }
+    drop(alive);
+    0
+}
+
+/// digest of `target` validated in a fresh child process after `before` (cross-instance stage)
+fn cross_digest(keep: bool, target: usize, before: &[usize]) -> Result<String, String> {
+    let exe = std::env::current_exe().map_err(|e| e.to_string())?;
+    let mut cmd = std::process::Command::new(exe);
+    cmd.arg("C11-cross").arg(if keep { "1" } else { "0" }).arg(target.to_string());
+    for b in before {
+        cmd.arg(b.to_string());
+    }
+    let out = cmd.output().map_err(|e| format!("cannot start child process: {e}"))?;
+    Ok(String::from_utf8_lossy(&out.stdout).trim().to_string())
+}
+
+fn check_cross(case: &Case) -> CheckResult {
+    let mut r = CheckResult::default();
+    let c = &case.expect["cross"];
+    let keep = c["keep"].as_bool().unwrap_or(false);
+    let target = c["target"].as_u64().unwrap_or(0) as usize;
+    let before: Vec<usize> = c["before"].as_array().map(|a| a.iter().map(|x| x.as_u64().unwrap_or(0) as usize).collect()).unwrap_or_default();
+    match (cross_digest(false, target, &[]), cross_digest(keep, target, &before)) {
+        (Ok(alone), Ok(after)) => {
+            if alone != after {
+                r.fail(format!(
+                    "a fresh parser gives another result for this project after other parsers were used in the same process (digest alone {alone}, after the others {after})"
+                ));
+            }
+        }
+        (Err(e), _) | (_, Err(e)) => r.fail(format!("MACHINERY: {e}")),
+    }
+    r
 }
 
 fn factorial(n: usize) -> usize {
@@ -696,7 +795,7 @@ pub fn run(tier: Tier, seed: u64) -> i32 {
     {
         let exe = std::env::current_exe().expect("exe");
         let mut mine: BTreeMap<String, String> = BTreeMap::new();
-        for proj in projs.iter().filter(|p| p.dup_ids.is_empty()) {
+        for proj in projs.iter() {
             let files: Vec<(String, String)> = proj.files.iter().map(|(a, b)| (a.to_string(), b.to_string())).collect();
             let order: Vec<usize> = (0..files.len()).collect();
             if let Ok(runs) = execute(build_ops(&files, &order, false), 7, 0) {
@@ -744,6 +843,61 @@ pub fn run(tier: Tier, seed: u64) -> i32 {
         }
         stats.set("other_process_comparisons", json!(compared));
     }
+    // cross-instance stage (process-global and thread-local state): in a fresh child process,
+    // other projects are validated first (their parsers dropped / kept alive), then the target in
+    // a fresh Parser; its result must equal the result of the target alone in a fresh process
+    {
+        let np = projs.len();
+        let alone: Vec<Result<String, String>> = (0..np).into_par_iter().map(|t| cross_digest(false, t, &[])).collect();
+        let mut jobs: Vec<(bool, usize, Vec<usize>)> = Vec::new();
+        for t in 0..np {
+            for b in 0..np {
+                jobs.push((false, t, vec![b]));
+                jobs.push((true, t, vec![b]));
+            }
+            // everything else first, in list order and reversed
+            let others: Vec<usize> = (0..np).filter(|x| *x != t).collect();
+            jobs.push((true, t, others.clone()));
+            jobs.push((false, t, others.into_iter().rev().collect()));
+        }
+        if tier == Tier::Thorough {
+            let core: Vec<usize> = (0..np).step_by(3).collect();
+            for t in &core {
+                for a in &core {
+                    for b in &core {
+                        jobs.push((true, *t, vec![*a, *b]));
+                    }
+                }
+            }
+        }
+        let results: Vec<(usize, Result<String, String>)> = jobs
+            .par_iter()
+            .enumerate()
+            .map(|(k, (keep, t, before))| (k, cross_digest(*keep, *t, before)))
+            .collect();
+        for (k, res) in results {
+            let (keep, t, before) = &jobs[k];
+            stats.case_done(1);
+            let ok = match (&alone[*t], &res) {
+                (Ok(a), Ok(b)) => a == b && !a.contains("PANIC") && !a.contains("UNSORTED"),
+                _ => false,
+            };
+            if !ok {
+                stats.violation(Violation {
+                    case: Case {
+                        prop: PROP.into(),
+                        kind: "cross-instance".into(),
+                        label: format!("project {} after {:?} (parsers {})", projs[*t].name, before.iter().map(|b| projs[*b].name).collect::<Vec<_>>(), if *keep { "kept alive" } else { "dropped" }),
+                        files: projs[*t].files.iter().map(|(a, b)| (a.to_string(), b.to_string())).collect(),
+                        expect: json!({"cross": {"keep": keep, "target": t, "before": before}}),
+                    },
+                    message: format!("a fresh parser gives another result after other parsers were used in the same process: {:?} vs alone {:?}", res, alone[*t]),
+                    finding_key: None,
+                });
+            }
+        }
+        stats.space(json!({"space": "cross-instance: target project in a fresh process after other projects", "projects": np, "child_processes": jobs.len() + np}));
+    }
     for row in coverage_rows.lock().unwrap().iter() {
         stats.space(row.clone());
     }
@@ -755,7 +909,7 @@ pub fn run(tier: Tier, seed: u64) -> i32 {
     let multi = stats.states.load(std::sync::atomic::Ordering::Relaxed) > 1000;
     finish(
         &stats,
-        "25 projects built to collide (several diagnostics on one line, several unresolved / unused imports and forward declarations, two imports matching one name, a declaration conflicting with several imports, one key registered twice, files without a tree, recovered syntax errors after validation diagnostics) x insertion orders (all permutations up to the stated cap) x plain / replace histories x base keys of new threads x repeated validate() calls; hash seeds are owned through the getrandom shim and the sweep continues until every hash container of <= 4 elements has been observed (hook H3) in all its iteration orders at every site; all outputs of one project must be equal and every file's diagnostics ascending in (line, column); states = validate() calls compared; distinct_nontrivial = distinct iteration-order tuples observed",
+        "28 projects built to collide (several diagnostics on one line, several unresolved / unused imports and forward declarations, two imports matching one name, a declaration conflicting with several imports, one key registered twice, files without a tree, recovered syntax errors after validation diagnostics) x insertion orders (all permutations up to the stated cap) x plain / replace histories x base keys of new threads x repeated validate() calls; hash seeds are owned through the getrandom shim and the sweep continues until every hash container of <= 4 elements has been observed (hook H3) in all its iteration orders at every site; all outputs of one project must be equal and every file's diagnostics ascending in (line, column); states = validate() calls compared; distinct_nontrivial = distinct iteration-order tuples observed",
         &[
             "std's RandomState takes its keys from getrandom(2) once per thread and increments them per instance; the LD_PRELOAD shim makes them a function of the harness-chosen base key (self-tested at start-up)",
             "hook H3 only observes the order of the container the library is about to iterate",
